@@ -109,6 +109,32 @@ enum Ctx {
     NoKeys,
     Cipher(Box<dyn Cipher>),
     Keys(Arc<KeySet>),
+    /// the server's cookie keys, and every cookie field of the datagram names a key the set currently holds
+    /// (its first four body bytes are overwritten with that key's id, the ciphertext length with `ct_len`)
+    KeysLive(Arc<KeySet>, [u8; 4], [u8; 2]),
+}
+
+/// overwrite the head of every NTS cookie field body (lenient walk over the extension fields)
+fn name_live_key(d: &[u8], id: &[u8; 4], ct_len: &[u8; 2]) -> Vec<u8> {
+    let mut x = d.to_vec();
+    let mut p = 48;
+    while p + 4 <= x.len() {
+        let ty = u16::from_be_bytes([x[p], x[p + 1]]);
+        let len = u16::from_be_bytes([x[p + 2], x[p + 3]]) as usize;
+        if ty == 0x0204 {
+            let end = x.len().min(p + len.max(4));
+            for (k, b) in id.iter().chain(ct_len.iter()).enumerate() {
+                if p + 4 + k < end {
+                    x[p + 4 + k] = *b;
+                }
+            }
+        }
+        if len < 4 {
+            break;
+        }
+        p += len.div_ceil(4) * 4;
+    }
+    x
 }
 
 impl Ctx {
@@ -116,11 +142,18 @@ impl Ctx {
         match self {
             Ctx::NoKeys => NtpPacket::deserialize(d, &NoCipher),
             Ctx::Cipher(c) => NtpPacket::deserialize(d, c.as_ref()),
-            Ctx::Keys(k) => NtpPacket::deserialize(d, k.as_ref()),
+            Ctx::Keys(k) | Ctx::KeysLive(k, _, _) => NtpPacket::deserialize(d, k.as_ref()),
         }
     }
     /// result class; a panic is data
     fn class(&self, d: &[u8]) -> String {
+        let live;
+        let d = if let Ctx::KeysLive(_, id, ct) = self {
+            live = name_live_key(d, id, ct);
+            &live[..]
+        } else {
+            d
+        };
         match util::catch(|| match self.decode(d) {
             Ok(_) => "ok".to_string(),
             Err(e) => class_of(&e).to_string(),
@@ -187,6 +220,23 @@ fn contexts(names: &Value, rng: &mut Rng) -> Vec<(String, Ctx)> {
             "none" => Ctx::NoKeys,
             "cipher" => Ctx::Cipher(Box::new(AesSivCmac256::try_from(&rng.bytes(32)[..]).unwrap())),
             "keyset" => Ctx::Keys(KeySetProvider::new(1).get()),
+            "keyset_live" | "keyset_live_ct" => {
+                // a key set with some history, so that live ids are not 0
+                let mut prov = KeySetProvider::new(2);
+                for _ in 0..5 {
+                    prov.rotate();
+                }
+                let keys = prov.get();
+                let c = keys.encode_cookie(&DecodedServerCookie {
+                    algorithm: AeadAlgorithm::AeadAesSivCmac256,
+                    s2c: Box::new(AesSivCmac256::try_from(&rng.bytes(32)[..]).unwrap()),
+                    c2s: Box::new(AesSivCmac256::try_from(&rng.bytes(32)[..]).unwrap()),
+                });
+                let id: [u8; 4] = c[..4].try_into().unwrap();
+                assert!(id != [0; 4] && id != [0xA5; 4]);
+                let ct = if n == "keyset_live" { [0, 0] } else { [c[4], c[5]] };
+                Ctx::KeysLive(keys, id, ct)
+            }
             x => panic!("unknown context {x}"),
         };
         (n.to_string(), c)
@@ -411,6 +461,38 @@ fn sealed(job: &Value) {
                     let r = cx.class(&x);
                     if r.starts_with("panic") && word_panics.len() < 8 {
                         word_panics.push(json!({"ctx": n, "offset": off, "region": region_of(off), "value": v, "panic": r}));
+                    }
+                }
+            }
+        }
+        // totality with a cut cookie: the cookie field in front of the authenticator is rebuilt with only the first L
+        // bytes of the real cookie (it still names a key the server holds), the datagram re-sealed around it
+        if let Some(ci) = pre.iter().position(|f| matches!(f, Ef::Cookie(_))) {
+            let Ef::Cookie(full) = pre[ci].clone() else { unreachable!() };
+            for cut in (0..=28usize).chain([full.len() - 17, full.len() - 16, full.len() - 1]) {
+                for exact in [false, true] {
+                    // `exact`: the length word says 4 + L (v4: rounded up to a word); otherwise padded up to the NTS minimum of 16
+                    let mut pre2 = pre.clone();
+                    pre2[ci] = if exact {
+                        let unp = 4 + cut;
+                        let wire_len = unp.div_ceil(4) * 4;
+                        let mut raw = vec![0x02, 0x04];
+                        raw.extend_from_slice(&((if ver == 5 { unp } else { wire_len }) as u16).to_be_bytes());
+                        raw.extend_from_slice(&full[..cut]);
+                        raw.resize(wire_len, 0);
+                        Ef::Raw(raw)
+                    } else {
+                        Ef::Cookie(full[..cut].to_vec())
+                    };
+                    let (x, _) = wire::datagram(&hdr, &pre2, Some((seal_key.as_ref(), &inner)), &unt);
+                    let mut all: Vec<(&str, &Ctx)> = right.iter().map(|(n, c)| (*n, c)).collect();
+                    all.push(("none", &Ctx::NoKeys));
+                    for (n, cx) in all {
+                        word_decodes += 1;
+                        let r = cx.class(&x);
+                        if r.starts_with("panic") && word_panics.len() < 8 {
+                            word_panics.push(json!({"ctx": n, "offset": lay.auth_fields[ci].0, "region": "cookie cut", "value": cut, "panic": r}));
+                        }
                     }
                 }
             }
